@@ -10,3 +10,10 @@ for fam, rev in (("split", True), ("splitfull", True), ("splitfullnozero", True)
         JOBS.append(Job(name="%s/%s" % (fam, n), props=props, src="scalar/%s.c" % fam, entry="H_%s%s" % (fam, n),
                         enforce="w_%s%s" % (fam, n), functions=["w_%s%s" % (fam, n)], replay="scalar/%s.c" % fam,
                         unwind=10))
+
+for fam in ("split", "splitfull", "splitfullnozero", "splitfull16"):
+    JOBS.append(Job(name="%s/Mono" % fam, props=["C04"], src="scalar/%s.c" % fam, entry="H_%sMono" % fam,
+                    enforce="w_%sMono" % fam, functions=["w_%sMono" % fam], replay="scalar/%s.c" % fam, unwind=10))
+for fam in ("split", "splitfull", "splitfullnozero"):
+    JOBS.append(Job(name="%s/Constants" % fam, props=["C04"], src="scalar/%s.c" % fam, entry="H_%sConstants" % fam,
+                    enforce="w_%sConstants" % fam, functions=["w_%sConstants" % fam], replay="scalar/%s.c" % fam, unwind=10))
